@@ -27,3 +27,12 @@ CHECKS = {
     "C01": {"runs": _poly("C01"), "level": "model_checking", "deadline": {"quick": 420, "thorough": 3000}},
     "C02": {"runs": _poly("C02"), "level": "model_checking", "deadline": {"quick": 420, "thorough": 3000}},
 }
+
+
+# ---- per-property registry fragments: bin/checks.d/*.py, each may define HARNESSES / CHECKS dicts
+import glob as _glob, os as _os
+for _f in sorted(_glob.glob(_os.path.join(_os.path.dirname(_os.path.abspath(__file__)), "checks.d", "*.py"))):
+    _ns = {"NOAC": NOAC}
+    exec(compile(open(_f).read(), _f, "exec"), _ns)
+    HARNESSES.update(_ns.get("HARNESSES", {}))
+    CHECKS.update(_ns.get("CHECKS", {}))
